@@ -2973,7 +2973,8 @@ def make_class(
     name = unicodedata.normalize("NFKC", name)
 
     if isinstance(attrs, dict):
-        cls_dict = attrs
+        # Copy, so popping the hooks below doesn't mutate the caller's dict.
+        cls_dict = dict(attrs)
     elif isinstance(attrs, (list, tuple)):
         cls_dict = {a: attrib() for a in attrs}
     else:
